@@ -164,6 +164,41 @@ pub fn run(o: &Opts) -> Report {
         ];
         run_expect(&mut rep, o, "environment-value-of-a-global-lost-to-a-default", casesg);
     }
+    {
+        use crate::pcorr::*;
+        use clap::parser::ValueSource;
+        // an option whose value is a separate word, given directly before an EXTERNAL subcommand: it is on the command
+        // line, whatever default or environment value it also has
+        let mke = |variant: usize| { let mut c = CmdS { name: "prog".into(), ..Default::default() };
+            c.settings.allow_external_subcommands = true;
+            if variant == 2 { c.settings.args_override_self = true; }
+            let mut lv = ArgS { id: "level".into(), long: Some("level".into()), short: Some('l'), action: Some("set"), ..Default::default() };
+            match variant { 0 => {}, 1 | 2 => lv.default_vals = vec!["1".into()], _ => lv.env = Some(Some("9".into())) }
+            c.args.push(lv);
+            c.args.push(ArgS { id: "mode".into(), long: Some("mode".into()), action: Some("set"), default_ifs: vec![("level".into(), PredS::Equals("3".into()), Some("deep".into()))], default_vals: vec!["flat".into()], ..Default::default() });
+            c };
+        let mut cases: Vec<(CmdS, Vec<Vec<u8>>, Expect)> = vec![];
+        for v in 0..4 {
+            for argv in [bv(&["prog", "--level", "3", "ext", "a", "b"]), bv(&["prog", "-l", "3", "ext"]), bv(&["prog", "--level=3", "ext", "--level", "4"])] {
+                cases.push((mke(v), argv, Box::new(|m| { want_source(m, "level", Some(ValueSource::CommandLine))?; want_occs(m, &[], "level", &[&["3"]])?; want_occs(m, &[], "mode", &[&["deep"]]) })));
+            }
+        }
+        run_expect(&mut rep, o, "command-line-option-before-external-subcommand-lost", cases);
+        // a group's source is the highest of its explicit members': one member typed, another from its environment variable
+        let mkg = |cli_first: bool| { let mut c = CmdS { name: "prog".into(), ..Default::default() };
+            let a = ArgS { id: "aa".into(), long: Some("aa".into()), action: Some("set"), ..Default::default() };
+            let b = ArgS { id: "bb".into(), long: Some("bb".into()), action: Some("set"), env: Some(Some("envb".into())), ..Default::default() };
+            if cli_first { c.args.push(a); c.args.push(b); } else { c.args.push(b); c.args.push(a); }
+            c.args.push(ArgS { id: "cc".into(), long: Some("cc".into()), action: Some("set"), default_vals: vec!["dc".into()], ..Default::default() });
+            c.groups.push(GroupS { id: "grp".into(), args: vec!["aa".into(), "bb".into(), "cc".into()], multiple: true, ..Default::default() });
+            c };
+        let mut casesg: Vec<(CmdS, Vec<Vec<u8>>, Expect)> = vec![];
+        for f in [true, false] {
+            casesg.push((mkg(f), bv(&["prog", "--aa", "1"]), Box::new(|m| { want_source(m, "aa", Some(ValueSource::CommandLine))?; want_source(m, "bb", Some(ValueSource::EnvVariable))?; want_source(m, "grp", Some(ValueSource::CommandLine)) })));
+            casesg.push((mkg(f), bv(&["prog"]), Box::new(|m| { want_source(m, "bb", Some(ValueSource::EnvVariable))?; want_source(m, "cc", Some(ValueSource::DefaultValue))?; want_source(m, "grp", Some(ValueSource::EnvVariable)) })));
+        }
+        run_expect(&mut rep, o, "group-source-below-a-member's", casesg);
+    }
     crate::pcorr::run_generic(&mut rep, o, 0xC06);
     rep
 }
